@@ -251,6 +251,14 @@ def main(argv=None):
     c = pipeline.Case(drv, text)
     rep.case(key=text, nontrivial=True)
     core.guarded(rep, text, check_ode, rep, drv, rng, c.ode, text, "unit-1", c)
+    # ---- dimensionless states and parameters declared with the unit "1" (how gates and fractions come out of CellML / Myokit):
+    # declarations keep that unit through save / load (only the writer of assignment lines leaves it out - the finding above)
+    text = ('states("Gate", m=ScalarParam(0.05, unit="1", description="activation"), h=ScalarParam(0.6, unit="1"))\n'
+            'states("Membrane", V=ScalarParam(-65, unit="mV"))\nparameters("Gate", f=ScalarParam(0.5, unit="1"), tau=ScalarParam(2, unit="ms"))\n'
+            'expressions("Gate")\ndm_dt = (f - m)/tau\ndh_dt = -h/tau\nexpressions("Membrane")\ndV_dt = -m*h*V\n')
+    c = pipeline.Case(drv, text)
+    rep.case(key=text, nontrivial=True)
+    core.guarded(rep, text, check_ode, rep, drv, rng, c.ode, text, "unit-1-declarations", c)
     # ---- random models with annotations
     n = a.n or (24 if a.tier == "quick" else 500)
     for i in range(n):
